@@ -565,13 +565,18 @@ var (
 	c16Ints = []int64{math.MinInt64, math.MinInt64 + 1, -1, 0, 1, math.MaxInt64 - 1, math.MaxInt64}
 	// printable boundaries 0x20 / 0x7e, both escaped characters, the two nearest
 	// non-printable neighbours 0x1f / 0x7f and a non-ASCII character
-	c16StrPool = c16Words([]string{"a", " ", "\"", "\\", "~", "\x1f", "\x7f", "é"}, 3)
+	c16StrPool = append(c16Words([]string{"a", " ", "\"", "\\", "~", "\x1f", "\x7f", "é"}, 3), "a\u0161", "\u0120", "a\u017e")
 	// every token punctuation, both alpha cases, a digit (not allowed first)
 	c16TokPool = append(c16Words([]string{"a", "A", "1", "_", "-", ".", ":", "%", "*", "/"}, 3),
-		"a b", "a,", "a;", "a=", "a\"", "aé", "a\x00", "a+", "é", "a\n", " a", "a ")
+		"a b", "a,", "a;", "a=", "a\"", "aé", "a\x00", "a+", "é", "a\n", " a", "a ",
+		// runes above U+00FF whose LOW BYTE is an allowed token character (a validity check that
+		// truncates a rune to a byte would let them through): U+0161 -> 'a', U+0130 -> '0',
+		// U+015F -> '_', U+212A -> '*', U+012F -> '/', U+0141 -> 'A' (also in first position)
+		"a\u0161", "a\u0130", "a\u015f", "a\u212a", "a\u012f", "a\u0161b", "\u0141", "\u0161a")
 	// key characters plus two token-only characters that a key must not contain
 	c16KeyPool = append(c16Words([]string{"a", "z", "1", "_", "-", "A", "*"}, 3),
-		"a.", "a b", "aé", "a=", "a;", "a,", "a\x00", " a", "a ")
+		"a.", "a b", "aé", "a=", "a;", "a,", "a\x00", " a", "a ",
+		"a\u0161", "a\u0130", "a\u015f", "a\u012d", "a\u0161b", "\u0161", "\u0161a")
 	c16Foreign = []c16Gen{gF(nil), gF(int(5)), gF(int32(5)), gF(uint64(5)), gF(true), gF(false), gF(float64(1.5)), gF(float32(1)),
 		gF(sh.Key("k")), gF([]sh.Item{int64(1)}), gF([1]byte{1}), gF('a')}
 )
